@@ -2407,7 +2407,7 @@ class RawAlgorithmsMixIn:
         else:
             D,P,M,N = v_data.shape
             if out is None:
-                out = numpy.zeros((D,P,N),dtype=v_data.dtype)
+                out = numpy.zeros((D,P,min(M,N)),dtype=v_data.dtype)
 
             for d in range(D):
                 for p in range(P):
@@ -2429,8 +2429,15 @@ class RawAlgorithmsMixIn:
 
 
         D,P = x_data.shape[:2]
-        for d in range(D):
-            for p in range(P):
-                out[d,p] += numpy.diag(ybar_data[d,p])
+        if numpy.ndim(x_data) == 4:
+            # x is a (possibly rectangular) matrix, y its diagonal of length L
+            L = ybar_data.shape[2]
+            for d in range(D):
+                for p in range(P):
+                    out[d,p,:L,:L] += numpy.diag(ybar_data[d,p])
+        else:
+            for d in range(D):
+                for p in range(P):
+                    out[d,p] += numpy.diag(ybar_data[d,p])
 
         return out
